@@ -821,6 +821,11 @@ func (c *updater) buildBackendProtocol(d *backData) {
 		var crtFile convtypes.CrtFile
 		namespace, name, err := crt.NamespacedName()
 		if err == nil {
+			if crt.Source != nil {
+				// the cache decides if the resource that declares the
+				// secret can read it from another namespace
+				namespace, name = crt.Source.Namespace, crt.Value
+			}
 			crtFile, err = c.cache.GetTLSSecretPath(
 				namespace,
 				name,
@@ -859,6 +864,9 @@ func (c *updater) buildBackendProtocol(d *backData) {
 		var caFile, crlFile convtypes.File
 		namespace, name, err := ca.NamespacedName()
 		if err == nil {
+			if ca.Source != nil {
+				namespace, name = ca.Source.Namespace, ca.Value
+			}
 			caFile, crlFile, err = c.cache.GetCASecretPath(
 				namespace,
 				name,
